@@ -956,7 +956,10 @@ func (c *FnVC) finish() {
 				}
 			}
 		}
-		c.frameObligations(reach)
+		// frames per return as well: each query then carries one path's heap versions
+		for ri, r := range c.rets {
+			c.frameObligationsAt(r.heap, r.reach, fmt.Sprintf("@ret%d", ri+1))
+		}
 		return
 	}
 	for i, e := range c.ct.Ensures {
@@ -1004,12 +1007,15 @@ func (c *FnVC) bindResults(env map[string]envVal, sig *types.Signature, rv []str
 
 // frameObligations: every heap component changed between entry and return may
 // only differ at locations in the modifies set (for pre-existing objects).
-func (c *FnVC) frameObligations(reach string) {
+func (c *FnVC) frameObligations(reach string) { c.frameObligationsAt(c.cur, reach, "") }
+
+// frameObligationsAt: the frame obligations for the heap at one return (or the merged one).
+func (c *FnVC) frameObligationsAt(heap HeapState, reach, suffix string) {
 	if c.ct.ModAll {
 		return
 	}
 	keys := map[string]bool{}
-	for k := range c.cur {
+	for k := range heap {
 		keys[k] = true
 	}
 	old := c.newEval(c.fn, c.paramEnv(), c.entry, nil)
@@ -1024,10 +1030,10 @@ func (c *FnVC) frameObligations(reach string) {
 			continue
 		}
 		e0, has0 := c.entry[k]
-		if has0 && e0 == c.cur[k] {
+		if has0 && e0 == heap[k] {
 			continue
 		}
-		hr := c.H(k)
+		hr := c.hOf(heap, k)
 		h0 := c.hOf(c.entry, k)
 		sk := c.freshName("fl")
 		extra := []string{fmt.Sprintf("(declare-const %s Loc)", sk)}
@@ -1036,7 +1042,7 @@ func (c *FnVC) frameObligations(reach string) {
 		if isRelComp(k) {
 			goal = fmt.Sprintf("(or %s (= %s %s))", inM, hr, h0)
 		}
-		c.obligeNamed("frame", "frame."+sanitize(k), goal, reach, "frame: heap component "+k+" unchanged outside modifies", extra)
+		c.obligeNamed("frame", "frame."+sanitize(k)+suffix, goal, reach, "frame: heap component "+k+" unchanged outside modifies", extra)
 	}
 }
 
